@@ -509,7 +509,7 @@ fn gen(args: &Args, emit: &mut dyn FnMut(String), stats: &mut Stats) {
     let kmax: u32 = if thorough { 17 } else { 12 };
     let mut g = Gen { rng: SplitMix64::new(args.seed ^ 0xC04), emit, stats, cap_hist: 1usize << (kmax + 1) };
     let mut ctr = 0usize;
-    let dense_cap: u64 = if thorough { 1 << 23 } else { 1 << 19 };
+    let dense_cap: u64 = if thorough { 1 << 21 } else { 1 << 19 };
 
     // (i) every length pair 1..=40 (both precisions; quick: f32 on a third of the pairs)
     for la in 1..=40usize {
@@ -571,7 +571,7 @@ fn gen(args: &Args, emit: &mut dyn FnMut(String), stats: &mut Stats) {
                 (PATTERNS[ctr % PATTERNS.len()], PATTERNS[(ctr / 3) % PATTERNS.len()])
             };
             // big sizes are expensive in the model: thin out in the thorough tier
-            if k >= 15 && idx % 3 != (k as usize) % 3 {
+            if k >= 14 && idx % 4 != (k as usize) % 4 {
                 continue;
             }
             let opk = OPS[ctr % 4];
